@@ -158,6 +158,9 @@ func (nr *nativeRunner) run(files []string) (map[string]*nativeResult, error) {
 		}
 	}
 	if err != nil && len(res) < len(files) {
+		if d := os.Getenv("VF_NATIVE_LOG"); d != "" {
+			os.WriteFile(d, out, 0o644)
+		}
 		tail := string(out)
 		if len(tail) > 2000 {
 			tail = tail[len(tail)-2000:]
